@@ -1,4 +1,5 @@
 import Lemmas.RBChecked
+import Lemmas.RBHeapRem
 /-! # C06 — the red-black tree behaves as a stably ordered multimap and stays balanced
 
 Property theorems only.  The executable model is `Model/RBTree.lean` (`RB.T` = node structure, `RB.Tree` = root +
@@ -250,6 +251,161 @@ theorem compares_run (hc : TotalPreorder cmp) (ops : List (Op K V)) (k : K) (v :
   have h2 := compares_insert (cmp := cmp) (Tree.run cmp ops) k v
   refine ⟨by omega, ?_, by omega⟩
   rw [compares_remove]; omega
+
+/-! ## the pointer-level model (`Model/RBHeap.lean`): parent links, `t.root`, `t.count`
+
+`RB.PTree` transcribes the mutating half of `tree.go` statement for statement on a node store with `parent` / `left` /
+`right` links; the driver runs it in lock-step with `RB.Tree` on every `ins` / `rem` line and prints the node dump that
+is compared with the real Go nodes from it.  `PTree.Owns t par s`: the memory of `t` holds the nodes of the addressed
+tree `s` at their addresses, linked as in `s`, EVERY parent link pointing to the node above (`par` above the root). -/
+
+/-- **rotations maintain the parent links** (`tree.go:172-210`, mechanism 2 of the property) — `rotateLeft` /
+    `rotateRight` at a node `a` whose subtree is owned with pairwise distinct addresses (and whose node above, if any,
+    lies outside it): no nil dereference; the memory then owns the ROTATED subtree — the pivot under the old parent,
+    `a` under the pivot, the inner grandchild (which changes sides) under `a` —; its functional content is `T.rotL` /
+    `T.rotR` of the content before; the link from above is re-pointed (`relinkL`/`relinkR`: the side on which `a` hung,
+    `t.root` when there is no node above); `count` and every cell outside the subtree other than the node above are
+    untouched. -/
+theorem rotations_keep_parent_links (t : PTree K V) (par : Ptr) (a b : Nat) (c bc : Color) (x y z : AT K V) (k bk : K)
+    (v bv : V) :
+    (PTree.Owns t par (.node a c x k v (.node b bc y bk bv z)) →
+      (AT.node a c x k v (.node b bc y bk bv z)).addrs.Nodup →
+      (∀ p, par = some p → p ∉ (AT.node a c x k v (.node b bc y bk bv z)).addrs ∧ (t.get (some p)).isSome) →
+      ∃ t', t.rotateLeft (some a) = some t' ∧
+        PTree.Owns t' par (.node b bc (.node a c x k v y) bk bv z) ∧
+        (AT.node b bc (.node a c x k v y) bk bv z).erase = (AT.node a c x k v (.node b bc y bk bv z)).erase.rotL ∧
+        t'.count = t.count ∧ t'.root = (if par.isSome then t.root else some b) ∧
+        (∀ j, j ∉ (AT.node a c x k v (.node b bc y bk bv z)).addrs → par ≠ some j → t'.get (some j) = t.get (some j)) ∧
+        (∀ p, par = some p → t'.get (some p) = (t.get (some p)).map (PTree.relinkL a b))) ∧
+    (PTree.Owns t par (.node a c (.node b bc x bk bv y) k v z) →
+      (AT.node a c (.node b bc x bk bv y) k v z).addrs.Nodup →
+      (∀ p, par = some p → p ∉ (AT.node a c (.node b bc x bk bv y) k v z).addrs ∧ (t.get (some p)).isSome) →
+      ∃ t', t.rotateRight (some a) = some t' ∧
+        PTree.Owns t' par (.node b bc x bk bv (.node a c y k v z)) ∧
+        (AT.node b bc x bk bv (.node a c y k v z)).erase = (AT.node a c (.node b bc x bk bv y) k v z).erase.rotR ∧
+        t'.count = t.count ∧ t'.root = (if par.isSome then t.root else some b) ∧
+        (∀ j, j ∉ (AT.node a c (.node b bc x bk bv y) k v z).addrs → par ≠ some j → t'.get (some j) = t.get (some j)) ∧
+        (∀ p, par = some p → t'.get (some p) = (t.get (some p)).map (PTree.relinkR a b))) :=
+  ⟨PTree.rotateLeft_owns t par a b c bc x y z k bk v bv, PTree.rotateRight_owns t par a b c bc x y z k bk v bv⟩
+
+/-- **what the lock-step comparison of the driver means** — `PTree.abs` (evaluated after every mutation of the
+    correspondence run and compared with the functional tree; also the source of every node dump compared with the
+    real Go nodes) returns exactly the functional content of the tree the memory owns from `t.root`; the fuel
+    `nodes.size + 1` always suffices (pigeonhole on the distinct addresses). -/
+theorem heap_abs_of_owns (t : PTree K V) (s : AT K V) (h : PTree.Owns t none s) (hroot : t.root = s.ptr)
+    (hnd : s.addrs.Nodup) : t.abs = some s.erase :=
+  PTree.abs_of_owns t s h hroot hnd
+
+/-- **pointer-level lookup** (`node.find`, `node.go:34-51`, as `Remove` calls it) on an owned tree: with the fuel
+    `nodes.size + 2` it terminates without a nil dereference, and the node it returns (an address inside the tree) holds
+    exactly the entry the functional `T.find` returns — by `get_first` the FIRST entry in order whose key compares
+    equal; `none` iff there is none. -/
+theorem heap_find_first (cmp : K → K → Ordering) (t : PTree K V) (s : AT K V) (key : K) (h : PTree.Owns t none s)
+    (hnd : s.addrs.Nodup) :
+    ∃ r, PTree.find cmp t key (t.nodes.size + 2) s.ptr = some r ∧
+      (t.get r).map (fun x => (x.key, x.value)) = T.find cmp s.erase key ∧ (∀ j, r = some j → j ∈ s.addrs) :=
+  PTree.find_of_owns cmp t key s none _ h (Nat.lt_succ_of_le (Nat.le_succ_of_le (h.height_le hnd)))
+
+/-- **the pointer-level `Insert` refines the functional `Insert`** (`tree.go:96-170`: allocation, descent with
+    `n.parent = cur`, linking below the parent or at `t.root`, the red-red repair loop with its three cases per side and
+    both rotations, `t.root.black = true`, `t.count++`) — on every memory that represents a tree `s` (`Owns` from
+    `t.root`, no parent above the root, pairwise distinct addresses), for every compare function: `PTree.insert`
+    terminates within its fuel `nodes.size + 2`, never dereferences nil, and the memory afterwards represents a tree
+    `s'` — so EVERY parent link is again the node above and `t.root` is the node without parent — whose functional
+    content is exactly `T.insert` of the content before (the operation all the theorems above speak about); `count`
+    is one more. -/
+theorem heap_insert_refines (cmp : K → K → Ordering) (t : PTree K V) (s : AT K V) (h : PTree.Rep t s) (key : K)
+    (val : V) :
+    ∃ t' s', t.insert cmp key val = some t' ∧ PTree.Rep t' s' ∧ s'.erase = T.insert cmp s.erase key val ∧
+      t'.abs = some (T.insert cmp s.erase key val) ∧ t'.count = t.count + 1 := by
+  obtain ⟨t', s', e, ho, hr, hn, he, hc⟩ := PTree.insert_refines cmp t s h.owns h.root h.nodup key val
+  exact ⟨t', s', e, ⟨ho, hr, hn⟩, he, he ▸ PTree.Rep.abs ⟨ho, hr, hn⟩, hc⟩
+
+/-- … hence for every history of insertions from the empty tree (any compare function, duplicates allowed): the
+    pointer-level run is defined, what `abs` reads off its links (every parent link checked) is the functional tree
+    of `Tree.run`, and `count` is the functional `count` -/
+theorem heap_insert_run (cmp : K → K → Ordering) (kvs : List (K × V)) :
+    ∃ t', PTree.insertAll cmp PTree.empty kvs = some t' ∧
+      t'.abs = some (Tree.run cmp (kvs.map fun e => Op.ins e.1 e.2)).root ∧
+      t'.count = (Tree.run cmp (kvs.map fun e => Op.ins e.1 e.2)).count := by
+  obtain ⟨t', s', e, hrep, he, hc⟩ := PTree.insertAll_refines cmp kvs PTree.empty .nil PTree.Rep.empty
+  have key : ∀ (l : List (K × V)) (x : Tree K V),
+      (l.map fun e => Op.ins e.1 e.2).foldl (Tree.apply cmp) x
+        = ⟨l.foldl (fun y e => T.insert cmp y e.1 e.2) x.root, x.count + l.length⟩ := by
+    intro l
+    induction l with
+    | nil => intro x; rfl
+    | cons a l ih =>
+      intro x
+      simp only [List.map_cons, List.foldl_cons, List.length_cons]
+      rw [ih]
+      simp only [Tree.apply, Tree.insert]
+      congr 1
+      omega
+  refine ⟨t', e, ?_, ?_⟩
+  · rw [hrep.abs, he, Tree.run, key]; rfl
+  · rw [hc, Tree.run, key]; rfl
+
+/-! non-vacuity: the representation hypothesis holds for the empty memory, and three insertions (ascending keys: a
+    rotation at the root) leave a memory whose links describe the balanced tree -/
+example : PTree.Rep (PTree.empty : PTree Int Int) .nil := PTree.Rep.empty
+example : ((PTree.insertAll (cmpOf false) PTree.empty [(1, 0), (2, 0), (3, 0)]).bind PTree.abs).map T.inorder
+    = some [(1, 0), (2, 0), (3, 0)] := by decide
+
+/-- **the pointer-level `Remove` refines the functional `Remove`** (`tree.go:214-339`: `node.find`, the successor walk,
+    unlinking the splice node with `child.parent = splice.parent`, the trade of key and value, the re-linked splice node
+    as sentinel when the child is nil, the whole `recolor` loop — red sibling, both nephews black, near/far nephew red,
+    with every rotation — the final unlinking of the sentinel, `t.root.black = true`, `t.count--`) — on every memory
+    that represents a tree `s` satisfying the red-black invariants, for every compare function: `PTree.remove`
+    terminates within its fuel, never dereferences nil, and the memory afterwards represents a tree (all parent links
+    and `t.root` consistent) whose functional content and `count` are those of the functional `Tree.remove`. -/
+theorem heap_remove_refines (cmp : K → K → Ordering) (t : PTree K V) (s : AT K V) (h : PTree.Rep t s) (x : Tree K V)
+    (hx : x.root = s.erase) (hc : x.count = t.count) (hinv : T.Inv x.root) (key : K) :
+    ∃ t' s', t.remove cmp key = some t' ∧ PTree.Rep t' s' ∧ (x.remove cmp key).1.root = s'.erase ∧
+      t'.abs = some (x.remove cmp key).1.root ∧ (x.remove cmp key).1.count = t'.count := by
+  obtain ⟨t', s', e, hrep, h1, h2⟩ := PTree.applyOp_refines cmp t s h x hx hc hinv (.rem key)
+  exact ⟨t', s', e, hrep, h1, by rw [hrep.abs]; exact congrArg some h1.symm, h2⟩
+
+/-- **refinement of every history** — for every finite history of `Insert` and `Remove` from the empty tree and every
+    compare function, the pointer-level run (what the driver executes in lock-step, and the source of every node dump
+    compared with the real Go nodes) is defined — no nil dereference, every loop within its fuel —, its memory
+    represents a tree: `t.root` is the node without parent, EVERY parent link is the node above, addresses are distinct;
+    what `abs` reads off the links is exactly the functional tree of `Tree.run` (to which `run_inv`, `height_run`,
+    `inorder_run`, `queries_run`, `traverseFrom_run` and the comparison bounds apply), and `t.count` is its `count`. -/
+theorem heap_run_refines (cmp : K → K → Ordering) (ops : List (Op K V)) :
+    ∃ t' s', PTree.run cmp ops = some t' ∧ PTree.Rep t' s' ∧ t'.abs = some (Tree.run cmp ops).root ∧
+      t'.count = (Tree.run cmp ops).count := by
+  obtain ⟨t', s', e, hrep, h1, h2⟩ := PTree.run_refines cmp ops
+  exact ⟨t', s', e, hrep, by rw [hrep.abs]; exact congrArg some h1.symm, h2.symm⟩
+
+/-- … so the pointer structure itself is a stably ordered multimap: the in-order sequence of the tree its links
+    describe is the specification list, after any history -/
+theorem heap_run_inorder (hc : TotalPreorder cmp) (ops : List (Op K V)) :
+    ∃ t', PTree.run cmp ops = some t' ∧ (t'.abs.map T.inorder) = some (Spec.run cmp ops) ∧
+      t'.count = (Spec.run cmp ops).length := by
+  obtain ⟨t', s', e, _, h1, h2⟩ := heap_run_refines cmp ops
+  exact ⟨t', e, by rw [h1, Option.map_some, inorder_run hc ops], by rw [h2, (count_run hc ops).1]⟩
+
+/-! non-vacuity: a history with removals (two-children removal with successor splice, removal of the root, drain) -/
+example : ((PTree.run (cmpOf false) [.ins 2 0, .ins 1 0, .ins 3 0, .ins 4 0, .rem 2, .rem 1]).bind PTree.abs).map
+    T.inorder = some [(3, 0), (4, 0)] := by decide
+example : ((PTree.run (cmpOf false) [.ins 2 0, .ins 1 0, .rem 2, .rem 1]).map (·.count)) = some 0 := by decide
+
+/-! non-vacuity and contrast: a three-node memory (root 1, right child 3, its left child 2) is well linked, stays so
+    under `rotateLeft` at the root, and does NOT under the variant of `rotateLeft` that omits
+    `if right.left != nil { n.right.parent = n }` (the inner grandchild keeps its old parent link: `abs` rejects it) -/
+example : PTree.Rep PTree.demoHeap
+    (.node 0 .black .nil 1 0 (.node 1 .red (.node 2 .black .nil 2 0 .nil) 3 0 .nil)) :=
+  ⟨⟨rfl, trivial, rfl, ⟨rfl, trivial, trivial⟩, trivial⟩, rfl, by decide⟩
+example : PTree.demoHeap.abs.isSome = true := by decide
+example : ((PTree.demoHeap.rotateLeft (some 0)).bind PTree.abs).isSome = true := by decide
+example : ((PTree.demoHeap.rotateLeftNoRepair (some 0)).bind PTree.abs).isSome = false := by decide
+
+/-! … and `Insert` without `n.parent = cur`: the third node of an ascending run hangs below the second but still names
+    the root as its parent — `abs` rejects the memory, while the real `Insert` is accepted (`heap_insert_run`) -/
+example : ((((PTree.empty : PTree Int Int).insertNoParentLink (cmpOf false) 1 0).bind
+    (·.insertNoParentLink (cmpOf false) 2 0)).bind (·.insertNoParentLink (cmpOf false) 3 0)).bind PTree.abs = none := by
+  decide
 
 /-! ## the hypothesis is satisfiable: the compare functions of the correspondence run are total preorders -/
 
